@@ -22,8 +22,6 @@ import (
 
 	tssnet "github.com/IBM/TSS/net"
 	"github.com/IBM/TSS/testutil/tlsgen"
-
-	"verif/core/sim"
 )
 
 // Shared pieces of the transport checks C16/C17: a real TLS server built with
@@ -123,7 +121,7 @@ func newNetServerAt(ca tlsgen.CA, p2id map[string]uint16, addr string) *netServe
 		panic(err)
 	}
 	lsnr := tssnet.Listen(addr, srvCert.Cert, srvCert.Key)
-	in, stop := tssnet.ServiceConnections(lsnr, p2id, &sim.Logger{})
+	in, stop := tssnet.ServiceConnections(lsnr, p2id, &nopLogger{})
 	pool := x509.NewCertPool()
 	pool.AppendCertsFromPEM(ca.CertBytes())
 	s := &netServer{Addr: lsnr.Addr().String(), Pool: pool, stop: stop, signal: make(chan struct{}, 1)}
